@@ -28,8 +28,8 @@ IMPORTS = ('From Coq Require Import List ZArith QArith String.\n'
 
 def _kdm(seq):
     def f():
-        o = SP(seq)
-        return (fnum(o.get_kappa()), fnum(o.get_delta()), fnum(o.get_deltaMax()))
+        o, held = SPx(seq)
+        return held, (fnum(o.get_kappa()), fnum(o.get_delta()), fnum(o.get_deltaMax()))
     return call(f, seconds=30)
 
 
@@ -43,14 +43,19 @@ def build(ctx):
     res = pmap(_kdm, seqs)
     cases = []
     ctx.direct_failures = []
-    for s, (st, v) in zip(seqs, res):
+    for s0, (st, v) in zip(seqs, res):
+        s = s0
+        if st == 'ok':
+            s, v = v          # the sequence the object actually holds (a shuffled child holds another one than asked for)
         d = {'sequence': s, 'kappa_delta_deltaMax': [st, v]}
+        if s != s0:
+            d['object'] = 'get_shuffled_sequence() child of ' + s0
         if st != 'ok':
             ctx.direct_failures.append(d)
             continue
         k, dl, dm = v
         nt = len(s) >= 6 and any(c in 'KRDE' for c in s) and dm > 0
-        cases.append(Case('(%s, %s, %s, %s)' % (cstr(s), cq(k), cq(dl), cq(dm)), d, key=s, nontrivial=nt))
+        cases.append(Case('(%s, %s, %s, %s)' % (cstr(s), cq(k), cq(dl), cq(dm)), d, key=(s, s != s0), nontrivial=nt))
     return [CaseSet('C01', IMPORTS, 'string * Q * Q * Q', 'check_c01', cases, shard=250)]
 
 
@@ -80,6 +85,8 @@ def post(ctx, cases, failing, known_lines):
 def replay_finding(ctx, fnd):
     w = fnd.get('witness', 'KEEEEK')
     st, v = _kdm(w)
+    if st == 'ok':
+        v = v[1]
     still = st == 'ok' and v[0] > 1
     return still, ('id=D1 site=Sequence.deltaMax witness=%s get_kappa()=%r > 1 (delta=%r, delta-max of the documented family=%r)'
                    % (w, v[0], v[1], v[2])) if still else ''
